@@ -22,6 +22,9 @@ def obligations(tier):
             obs.append(Ob(f"C06.flow/names={nst}/item1={i}", "drv", "c_items", {"VF_I1": i, "VF_NAMES": ns}, 300 if tier == "quick" else 900,
                           ["real LALR driver + actions + BaseData post-processing (harness/drv.py c_items)"],
                           f"delimited / differently cased column names {nst} in column definitions, key lists, constraints and foreign keys are reported verbatim and never confused with each other"))
+    obs.append(Ob("C06.norm/pipeline", "pipe", "c_norm_pipe", {}, 300 if tier == "quick" else 900,
+                  ["whole pipeline (harness/pipe.py) with normalize_names toggled on the shared parser object"],
+                  "6 catalogued statements with delimited names in every naming position (symbolic index): output with normalize_names=True == output without it, delimiters stripped"))
     obs.append(Ob("C06.norm/constraint-named-key", "drv", "c_items", {"VF_I1": 18, "VF_NAMES": 0, "VF_NORM": 1}, 300 if tier == "quick" else 900,
                   ["real LALR driver + actions + BaseData post-processing (harness/drv.py c_items)"],
                   "normalize_names=True: UNIQUE KEY `key` (a, b) + any second item: the constraint keeps its name, only the delimiters go"))
